@@ -79,7 +79,7 @@ func parseContractComments(cs *ContractSet, fset *token.FileSet, pkgPath string,
 	var cur *Contract
 	var lastClause *Clause
 	flushClause := func() error {
-		if lastClause != nil && lastClause.Expr == nil && lastClause.Kind != "modifies" && lastClause.Kind != "reads" {
+		if lastClause != nil && lastClause.Expr == nil && lastClause.Kind != "modifies" && lastClause.Kind != "reads" && lastClause.Kind != "rtc" {
 			e, err := parser.ParseExpr(lastClause.Text)
 			if err != nil {
 				return fmt.Errorf("%s:%d: cannot parse clause %q: %v", lastClause.File, lastClause.Line, lastClause.Text, err)
@@ -194,6 +194,10 @@ func parseContractComments(cs *ContractSet, fset *token.FileSet, pkgPath string,
 					cl := &Clause{Kind: "use-" + where, Tags: ctags, Text: r, File: fname, Line: line, Loop: loop, Label: callee}
 					cur.Clauses = append(cur.Clauses, cl)
 					lastClause = cl
+				case "rtc":
+					// options of the executable-contract harness (rtc.go): off <why> | recv <expr> |
+					// arg NAME = <expr> | tokens "a" "b" | max=N | import "path"
+					cur.Clauses = append(cur.Clauses, &Clause{Kind: "rtc", Text: rest, File: fname, Line: line, Loop: -1})
 				case "decreases":
 					cl := &Clause{Kind: "fdecreases", Tags: ctags, Text: rest, File: fname, Line: line, Loop: -1}
 					cur.Clauses = append(cur.Clauses, cl)
